@@ -44,7 +44,9 @@ var hkinds = []string{"sync", "async", "once", "seq", "filtered", "panic", "asyn
 // xkinds are handler kinds that combine options; they are not part of the enumerated lists
 // (nBase kinds), but of the curated workloads at the end of workloads(). The filters accept
 // the second publish only, so each of them both rejects and accepts an event.
-var xkinds = []string{"filtered-seq", "filtered-async", "filtered-async-seq", "filtered-once", "filtered-seq-ctx", "once-async", "once-seq", "once-async-seq"}
+var xkinds = []string{"filtered-seq", "filtered-async", "filtered-async-seq", "filtered-once", "filtered-seq-ctx", "once-async", "once-seq", "once-async-seq",
+	// panics with values that are neither strings nor errors nor Stringers (an int for the first publish, a struct for the second; a byte slice and a bool)
+	"panic-value", "async-panic-value"}
 var nBase = len(hkinds)
 
 func init() { hkinds = append(hkinds, xkinds...) }
@@ -299,6 +301,22 @@ func (in *inst) Body() {
 				in.rec.Add("enter", i, e.ID, "")
 				in.rec.Add("hctx", tokOf(ctx, "handler"), e.ID, "")
 			}, eventbus.WithFilter(second), eventbus.Sequential())
+		case "panic-value":
+			eventbus.Subscribe(bus, func(e Ev) {
+				in.rec.Add("enter", i, e.ID, "p")
+				if e.ID == pubIDs[0] {
+					panic(e.ID)
+				}
+				panic(struct{ Code int }{e.ID})
+			})
+		case "async-panic-value":
+			eventbus.Subscribe(bus, func(e Ev) {
+				in.rec.Add("enter", i, e.ID, "p")
+				if e.ID == pubIDs[0] {
+					panic([]byte("boom"))
+				}
+				panic(false)
+			}, eventbus.Async())
 		case "once-async":
 			eventbus.Subscribe(bus, body, eventbus.Once(), eventbus.Async())
 		case "once-seq":
@@ -605,6 +623,13 @@ func workloads(thorough bool) []workload {
 			for _, obs := range []int{0, 1} {
 				l = append(l, workload{H: hs, Persist: p, Observer: obs, CancelRace: true, TwoPublishers: true})
 			}
+		}
+	}
+	// cancellation racing the claim of a Once handler (claimed by a publish whose context is
+	// cancelled between the claim and the invocation: it still runs, in a context of that publish)
+	for _, hs := range [][]int{{2}, {nBase + 5}, {nBase + 6}, {nBase + 7}, {0, 2}} {
+		for _, obs := range []int{0, 1} {
+			l = append(l, workload{H: hs, Observer: obs, CancelRace: true})
 		}
 	}
 	// cancellation racing the dispatch of asynchronous invocations
